@@ -50,6 +50,7 @@ const (
 	c06Wtwice              // wrapper: runs the continuation twice on the same query
 	c06Wcopies             // wrapper: runs the continuation on two copies, one after the other
 	c06Wpar                // wrapper: runs the continuation on two copies concurrently
+	c06Wkeep               // wrapper: runs the continuation once and KEEPS it: the harness runs it again (on a copy of the query as it was) after the whole program has returned
 	c06Accept
 	c06Reject
 	c06Return
@@ -58,7 +59,7 @@ const (
 	c06NK
 )
 
-var c06KNames = [...]string{"a", "aerr", "wcont", "wstop", "wpost", "wtwice", "wcopies", "wpar", "accept", "reject", "return", "jump", "goto"}
+var c06KNames = [...]string{"a", "aerr", "wcont", "wstop", "wpost", "wtwice", "wcopies", "wpar", "wkeep", "accept", "reject", "return", "jump", "goto"}
 
 func (k c06K) String() string               { return c06KNames[k] }
 func (k c06K) MarshalText() ([]byte, error) { return []byte(c06KNames[k]), nil }
@@ -72,7 +73,7 @@ func (k *c06K) UnmarshalText(b []byte) error {
 	return fmt.Errorf("unknown action kind %q", b)
 }
 func (k c06K) builtin() bool { return k >= c06Accept }
-func (k c06K) wrapper() bool { return k >= c06Wcont && k <= c06Wpar }
+func (k c06K) wrapper() bool { return k >= c06Wcont && k <= c06Wkeep }
 
 // c06Match is one entry of a rule's matcher list.
 //
@@ -308,6 +309,23 @@ type c06FW struct {
 	label string
 }
 
+// continuations kept by wkeep wrappers (like the cache plugin keeps the rest of
+// the chain for its background refresh): run once more after the program returned
+const c06KeepMax = 3
+
+var c06KeepKey = query_context.RegKey()
+
+type c06Kept struct {
+	label string
+	next  ChainWalker
+	q     *query_context.Context
+}
+
+type c06KeptList struct {
+	items  []c06Kept
+	frozen bool
+}
+
 func (f *c06FW) Exec(ctx context.Context, q *query_context.Context, next ChainWalker) error {
 	t := c06TraceOf(q)
 	switch f.k {
@@ -317,6 +335,14 @@ func (f *c06FW) Exec(ctx context.Context, q *query_context.Context, next ChainWa
 	case c06Wstop:
 		t.evPlain(f.k, f.label)
 		return nil
+	case c06Wkeep:
+		t.evPlain(f.k, f.label)
+		if l, _ := q.GetValue(c06KeepKey); l != nil {
+			if kl := l.(*c06KeptList); !kl.frozen && len(kl.items) < c06KeepMax {
+				kl.items = append(kl.items, c06Kept{label: f.label, next: next, q: q.Copy()})
+			}
+		}
+		return next.ExecNext(ctx, q)
 	case c06Wpost:
 		t.evOpen(f.k, f.label)
 		err := next.ExecNext(ctx, q)
@@ -396,7 +422,7 @@ type c06World struct {
 
 func c06NewWorld() *c06World {
 	c06RegOnce.Do(func() {
-		for k := c06A; k <= c06Wpar; k++ {
+		for k := c06A; k <= c06Wkeep; k++ {
 			MustRegExecQuickSetup("v"+k.String(), func(_ BQ, args string) (any, error) { return c06NewExec(k, args), nil })
 		}
 		for _, v := range []string{"T", "F", "E"} {
@@ -404,7 +430,7 @@ func c06NewWorld() *c06World {
 		}
 	})
 	w := &c06World{ps: map[string]any{}}
-	for k := c06A; k <= c06Wpar; k++ {
+	for k := c06A; k <= c06Wkeep; k++ {
 		w.ps[k.String()] = &c06Cfg{k: k}
 	}
 	for _, v := range []string{"T", "F", "E"} {
@@ -458,8 +484,20 @@ func c06RunReal(seq *Sequence) (obs c06Obs) {
 			}
 		}
 	}()
+	kl := &c06KeptList{}
+	qc.StoreValue(c06KeepKey, kl)
 	err := seq.Exec(context.Background(), qc)
-	return c06Obs{trace: string(t.b), resp: c06RealResp(qc), err: err}
+	resp := c06RealResp(qc)
+	kl.frozen = true
+	for _, it := range kl.items {
+		sub := &c06Trace{}
+		it.q.StoreValue(c06Key, sub)
+		e2 := it.next.ExecNext(context.Background(), it.q)
+		t.add("kept@", it.label)
+		t.evCopy(sub, c06RealResp(it.q), e2 != nil)
+		t.add(";")
+	}
+	return c06Obs{trace: string(t.b), resp: resp, err: err}
 }
 
 // ---------------------------------------------------------------------------
@@ -476,7 +514,15 @@ type c06RQ struct {
 	tr   *c06Trace
 }
 
+type c06RefKept struct {
+	label string
+	st    []c06Frame
+	resp  int
+}
+
 type c06Ref struct {
+	kept     []c06RefKept
+	frozen   bool
 	p        *c06Prog
 	steps    int64 // rule evaluations
 	conts    int   // continuation runs started by wrappers
@@ -554,6 +600,13 @@ func (r *c06Ref) run(cont []c06Frame, q *c06RQ) (end string, err error) {
 		case c06Wstop:
 			q.tr.evPlain(k, lab)
 			return "wstop", nil
+		case c06Wkeep:
+			q.tr.evPlain(k, lab)
+			if !r.frozen && len(r.kept) < c06KeepMax {
+				r.kept = append(r.kept, c06RefKept{lab, append([]c06Frame(nil), st...), q.resp})
+			}
+			r.conts++
+			return r.run(st, q)
 		case c06Wpost:
 			q.tr.evOpen(k, lab)
 			r.conts++
@@ -613,6 +666,17 @@ func c06RunRef(p *c06Prog) (out c06RefOut) {
 		}
 	}()
 	end, err := r.run([]c06Frame{{c06Entry, 0}}, q)
+	resp := q.resp
+	r.frozen = true
+	for _, it := range r.kept {
+		c := &c06RQ{resp: it.resp, tr: &c06Trace{}}
+		r.conts++
+		_, e2 := r.run(it.st, c)
+		q.tr.add("kept@", it.label)
+		q.tr.evCopy(c.tr, c.resp, e2 != nil)
+		q.tr.add(";")
+	}
+	q.resp = resp
 	return c06RefOut{obs: c06Obs{trace: string(q.tr.b), resp: q.resp, err: err}, end: end, steps: r.steps, conts: r.conts, depth: r.maxDepth, meval: r.mevals}
 }
 
@@ -656,8 +720,16 @@ func c06Compare(real, ref c06Obs) (string, string) {
 	return "", ""
 }
 
+// c06Mark, when set, is told the program that is about to run (the keep family
+// runs in a child process: a kept continuation gone wrong can recurse until the
+// runtime kills the process, which cannot be recovered from in-process).
+var c06Mark func(space string, p *c06Prog)
+
 func (r *c06Runner) runCase(p *c06Prog, args *[3]Args, verbose bool) bool {
 	res := r.res
+	if c06Mark != nil {
+		c06Mark(r.space, p)
+	}
 	ref := c06RunRef(p)
 	if ref.end == "runaway" {
 		res.Infra = "reference interpreter ran away on " + c06ProgText(p)
